@@ -140,6 +140,16 @@ def cases(tier, seed, shard, nshards):
                 k += 1
                 if k % nshards == shard:
                     yield {"k": "shortcut", "d": d, "probe": probe, "maker": maker}
+    for d in DIALECT_CLASSES:
+        for a in OPERAND_SHAPES:
+            for b in OPERAND_SHAPES:
+                for hi, host in enumerate(WRAP_HOSTS):
+                    if tier == "quick" and host != "top" and (OPERAND_SHAPES.index(a) + OPERAND_SHAPES.index(b) + seed) % 5 != hi - 1:
+                        continue
+                    k += 1
+                    if k % nshards == shard:
+                        yield {"k": "wrapping", "d": d, "a": a, "b": b, "host": host, "bcls": ["own", "generic"][(k // 3) % 2],
+                               "op": ["union", "union_all", "intersect", "except_of", "minus"][k % 5], "tail": k % 4 == 0, "mode": ["inline", "param"][(k // 2) % 2]}
     # convention-sensitive leaves inside every operand slot of every term class (term-level nesting)
     from ..zoo import zoo
     for d in DIALECT_CLASSES:
@@ -695,7 +705,101 @@ def run_two_positions(case, mon):
     mon.nontrivial(case)
 
 
+OPERAND_SHAPES = ["plain", "where", "ordered", "limited", "offset", "sliced", "ordered-limited", "distinct", "grouped", "for-update"]
+WRAP_HOSTS = ["top", "from", "in", "join", "cte", "insert-select"]
+WRAPS = {"Query": True, "PostgreSQLQuery": True, "OracleQuery": True, "MSSQLQuery": True, "MySQLQuery": False, "SQLLiteQuery": False}
+
+
+def _operand(Qx, shape, t):
+    q = Qx.from_(t).select(t.pcol)
+    if shape == "where":
+        return q.where(t.qcol > 1)
+    if shape == "ordered":
+        return q.orderby(t.pcol)
+    if shape == "limited":
+        return q.limit(3)
+    if shape == "offset":
+        return q.offset(2)
+    if shape == "sliced":
+        return q[1:4]
+    if shape == "ordered-limited":
+        return q.orderby(t.pcol).limit(3).offset(1)
+    if shape == "distinct":
+        return q.distinct()
+    if shape == "grouped":
+        return q.groupby(t.pcol)
+    if shape == "for-update":
+        return q.for_update()
+    return q
+
+
+def run_wrapping(case, mon):
+    """Whether the operands of a set operation are bracketed is the dialect's convention: the same for every operand, whatever clauses
+    the operand carries and whichever class it was built with."""
+    r = R()
+    d = case["d"]
+    Q = r[d]
+    t, u = r["Table"]("wt"), r["Table"]("wu")
+    classes = {"own": Q, "generic": r["Query"]}
+    try:
+        a = _operand(Q, case["a"], t)  # the base query's class decides: always the dialect's own
+        b = _operand(classes[case["bcls"]], case["b"], u)
+        so = getattr(a, case["op"])(b)
+        if case["tail"]:
+            so = so.orderby("pcol").limit(5)
+        host = case["host"]
+        o = r["Table"]("wo")
+        if host == "top":
+            root = so
+        elif host == "from":
+            root = Q.from_(so.as_("s1")).select("pcol")
+        elif host == "in":
+            root = Q.from_(o).select(o.a).where(o.a.isin(so))
+        elif host == "join":
+            s1 = so.as_("s1")
+            root = Q.from_(o).join(s1).on(o.a == s1.pcol).select(o.a)
+        elif host == "cte":
+            c = r["AliasedQuery"]("c1")
+            root = Q.with_(so, "c1").from_(c).select(c.star)
+        else:
+            s1 = so.as_("s1")
+            root = Q.into(r["Table"]("dst")).from_(s1).select(s1.star)
+        if case["mode"] == "param" and isinstance(root, r["QueryBuilder"]):
+            sql = root.get_parameterized_sql(contexts()[d])[0]
+        else:
+            sql = root.get_sql(contexts()[d])
+    except Exception as e:
+        mon.count("unbuildable")
+        mon.add("unbuildable", "wrapping:%s:%s" % (case["host"], type(e).__name__))
+        return
+    toks = tokenize(sql, d)
+    # locate the set operator; the tokens right before and right after it tell whether the operands are bracketed
+    ops = [i for i, t_ in enumerate(toks) if t_.kind == "WORD" and t_.value.upper() in ("UNION", "INTERSECT", "EXCEPT", "MINUS")]
+    if len(ops) != 1:
+        mon.inconc("wrapping probe: %d set operators in %r" % (len(ops), sql[:200]))
+        return
+    i = ops[0]
+    j = i + 1
+    if j < len(toks) and toks[j].kind == "WORD" and toks[j].value.upper() == "ALL":
+        j += 1
+    left_wrapped = toks[i - 1].kind == "PUNCT" and toks[i - 1].text == ")"
+    right_wrapped = toks[j].kind == "PUNCT" and toks[j].text == "("
+    mon.count("set_operands_inspected", 2)
+    mon.add("wrapping_cells", "%s/%s/%s" % (DIALECT_OF[d] if d != "Query" else "generic", case["a"], case["b"]))
+    want = WRAPS[d]
+    for side, got, shape in (("left", left_wrapped, case["a"]), ("right", right_wrapped, case["b"])):
+        if got != want:
+            mon.violation("set-operand-wrapping:operand-shape:%s:%s" % (shape, DIALECT_OF[d] if d != "Query" else "generic"),
+                          "%s: the %s operand (%s, built with the %s class) is %s although this dialect %s the operands of a set operation: %r" % (
+                              d, side, shape, "dialect's own" if side == "left" else case["bcls"], "bracketed" if got else "bare",
+                              "brackets" if want else "never brackets", sql[:260]))
+            return
+    mon.nontrivial(case)
+
+
 def run_case(case, mon):
+    if case["k"] == "wrapping":
+        return run_wrapping(case, mon)
     if case["k"] == "two-positions":
         return run_two_positions(case, mon)
     if case["k"] == "shortcut":
@@ -704,4 +808,4 @@ def run_case(case, mon):
 
 
 def FLOORS(tier):
-    return {"nested_renders": 5000, "probe_spans_compared": 3000, "hook_contexts_checked": 100000, "dialect_pairs_compared": 3000}
+    return {"nested_renders": 5000, "probe_spans_compared": 3000, "hook_contexts_checked": 100000, "dialect_pairs_compared": 3000, "set_operands_inspected": 1500}
